@@ -18,8 +18,10 @@ if [ "${SKIP_CONFIRM:-}" = "" ]; then
 fi
 echo "== check $PROP against the change"
 cd /verif
+cp evidence/$PROP.json /tmp/try_evidence_backup.json 2>/dev/null
 git -C /repo apply "$WT/SEEDED/patch.diff"
 ./check $PROP --tier $TIER > /tmp/try_check.log 2>&1; RC=$?
 git -C /repo checkout -- .
+cp /tmp/try_evidence_backup.json evidence/$PROP.json 2>/dev/null   # evidence must come from the unchanged tree
 echo "check-exit=$RC"; grep -E "VIOLATION|KNOWN-FINDING|INCONCLUSIVE" /tmp/try_check.log | cut -c1-220 | head -8; grep -A1 VIOLATION /tmp/try_check.log | grep signature | head -5
 git -C /repo status --short | head -3
